@@ -209,6 +209,12 @@ def run(spec):
                 out.violate("restart_from_retained_state_raised", f"{name}: {e!r}", **tags)
                 break
             out.count("restarts_from_retained_state")
+            # the kept state must survive being used as a checkpoint (a second recovery attempt may follow)
+            kept = probes.snap_state(st)
+            if probes.diff_states(kept, rec["snap"]):
+                out.violate("retained_state_changed", f"{name}: crash at objective call {c}; the state kept from callback #{j} changed while it was used "
+                            f"as checkpoint of the restart: fields {probes.diff_states(kept, rec['snap'])}", when="restart", **tags)
+                break
             if rs.exc is not None:
                 out.violate("restart_from_retained_state_raised", f"{name}: crash at objective call {c} after callback #{j}; restart from the retained "
                             f"state raised {rs.exc!r}", **tags)
